@@ -507,6 +507,22 @@ def build_topdown(scene, skeletons, *, sc, os_c, ms_c, si, os_i, ms_i, crop_hw, 
     return p, cnet, inet
 
 
+def build_topdown_gt(scene, skeletons, *, sc, os_c, ms_c, max_hw, batch_size, refinement,
+                     max_instances=None, threshold=0.2, sigma=1.5):
+    """REAL TopDownPredictor with a centroid model only: CentroidCrop (predicted centroids, no crops) +
+    FindInstancePeaksGroundTruth (the public ground-truth-peaks variant of top-down inference)."""
+    from sleap_nn.inference.predictors import TopDownPredictor
+    ccfg = mk_config("centroid", scale=sc, max_stride=ms_c, output_stride=os_c,
+                     max_height=max_hw[0], max_width=max_hw[1], crop_hw=None, sigma=sigma)
+    cnet = IdealNet(scene, "centroid", os_c, sigma=sigma, scale=sc, max_hw=max_hw)
+    p = TopDownPredictor(centroid_config=ccfg, confmap_config=None, centroid_model=cnet, confmap_model=None,
+                         centroid_backbone_type="unet", centered_instance_backbone_type=None,
+                         skeletons=skeletons, peak_threshold=threshold, integral_refinement=refinement,
+                         batch_size=batch_size, max_instances=max_instances, preprocess_config=None)
+    p._initialize_inference_model()
+    return p, cnet
+
+
 def run_predict(predictor, provider: str, source):
     """The REAL `make_pipeline` (reader construction, `preprocess` switch) and
     `predict(make_labels=False)` (`_predict_generator`) on an in-memory source."""
